@@ -27,11 +27,11 @@ def classify_stderr(err):
     return "other"
 
 
-def model_run(sexprs, fuel=20000):
+def model_run(sexprs, fuel=4000, timeout=1800):
     """-> list of dicts {src, expect, out} in input order."""
     common.ensure_model("Lang")
     data = ("\n".join(sexprs) + "\n").encode()
-    rc, o, e = common.sh([common.model_bin("Lang"), str(fuel)], input=data, timeout=1800)
+    rc, o, e = common.sh([common.model_bin("Lang"), str(fuel)], input=data, timeout=timeout)
     if rc != 0:
         raise RuntimeError("lang_model failed rc=%d: %s" % (rc, e[-800:]))
     res = []
@@ -45,9 +45,16 @@ def model_run(sexprs, fuel=20000):
     return res
 
 
-def impl_run(impl_dir, srcs, timeout=10, env=None):
+def impl_run(impl_dir, srcs, timeout=10, env=None, max_timeouts=24):
+    """Runs every program; once more than `max_timeouts` runs have hit the time limit the remaining
+    ones get a 1 s limit (a hanging implementation must not stall the check)."""
+    state = {"n": 0}
+
     def one(src):
-        rc, o, e = common.run_cb(impl_dir, src, timeout=timeout, env=env)
+        t = timeout if state["n"] <= max_timeouts else 1
+        rc, o, e = common.run_cb(impl_dir, src, timeout=t, env=env)
+        if rc == 124:
+            state["n"] += 1
         return {"rc": rc, "out": o, "err": e}
     return common.pmap(one, srcs)
 
@@ -73,9 +80,9 @@ def compare(m, i, strict_class=True):
     return None
 
 
-def differential(impl_dir, sexprs, fuel=20000, strict_class=True, env=None):
+def differential(impl_dir, sexprs, fuel=4000, strict_class=True, env=None, model_timeout=1800):
     """-> (results, mismatches) where mismatches = [(index, reason)]"""
-    ms = model_run(sexprs, fuel)
+    ms = model_run(sexprs, fuel, model_timeout)
     idx = [k for k, m in enumerate(ms) if m["expect"] not in ("undef", "nofuel")]
     irs = impl_run(impl_dir, [ms[k]["src"] for k in idx], env=env)
     res = [{"model": m, "impl": None} for m in ms]
